@@ -490,9 +490,10 @@ func c02Sha256(c *fw.Ctx, all []aCase) {
 		k := cases[i]
 		raw := objs[i].Data
 		c.Eval()
-		tail := c02KeyTail(k, "")
 		fail := func(kind, got, want string) {
-			aFail(c, "sha256: "+kind+": "+tail, fmt.Sprintf("sha256 repository: %s for %s: go-git %s, git %s", kind, k.Desc(), fw.Q(got), fw.Q(want)),
+			// one key per kind of difference and object type: the description of
+			// the object is in the message and the replay
+			aFail(c, "sha256: "+kind+": "+k.Kind+" in git's own layout", fmt.Sprintf("sha256 repository: %s for %s: go-git %s, git %s", kind, k.Desc(), fw.Q(got), fw.Q(want)),
 				map[string]any{"part": "sha256", "object": k.Desc(), "id": ids[i], "raw": string(raw), "go_git": got, "git": want})
 		}
 		verdict := "same"
